@@ -4,3 +4,4 @@ CONSTANTS
   Accepts <- Empty
   ExtraHandlers <- Empty
   Errors <- Empty
+  WrongRender = "none"
